@@ -182,9 +182,16 @@ struct Outcome {
     machinery: Option<String>,
 }
 
+/// cases in which receive() did not return for the second datagram (each costs a real-time wait);
+/// after a few dozen of them the verdict is in and the remaining cases are skipped
+static BLOCKED: std::sync::atomic::AtomicUsize = std::sync::atomic::AtomicUsize::new(0);
+
 /// one 2-step history on a fresh transport
 fn eval(rt: &tokio::runtime::Runtime, tx: &std::net::UdpSocket, l: &[u8], v: &[u8], t: usize, verbose: bool) -> Outcome {
     let second = &v[..t];
+    if BLOCKED.load(std::sync::atomic::Ordering::Relaxed) > 48 {
+        return Outcome { fail: None, machinery: None };
+    }
     let want1 = catch(|| PDU::decode(&mut &l[..])).map_err(|p| format!("panic {}", p)).and_then(|r| r.map_err(|e| e.to_string()));
     let want2 = catch(|| PDU::decode(&mut &second[..])).map_err(|p| format!("panic {}", p)).and_then(|r| r.map_err(|e| e.to_string()));
     let res: Result<Result<(Result<PDU, String>, Result<PDU, String>), String>, String> = catch(|| {
@@ -195,8 +202,27 @@ fn eval(rt: &tokio::runtime::Runtime, tx: &std::net::UdpSocket, l: &[u8], v: &[u
             tx.send_to(l, addr).map_err(|e| format!("send: {}", e))?;
             let r1 = tokio::time::timeout(Duration::from_secs(5), tr.receive()).await.map_err(|_| "timeout waiting for the first datagram".to_string())?;
             tx.send_to(second, addr).map_err(|e| format!("send: {}", e))?;
-            let r2 = tokio::time::timeout(Duration::from_secs(5), tr.receive()).await.map_err(|_| "timeout waiting for the second datagram".to_string())?;
-            Ok::<_, String>((r1.map_err(|e| e.to_string()), r2.map_err(|e| e.to_string())))
+            // (the same receive() call is kept alive across the sentinel: a transport that keeps
+            // partial input in the state of that call must not get a fresh start from the harness)
+            let fut = tr.receive();
+            tokio::pin!(fut);
+            let r2 = match tokio::time::timeout(Duration::from_millis(400), &mut fut).await {
+                Ok(r) => r.map_err(|e| e.to_string()),
+                Err(_) => {
+                    BLOCKED.fetch_add(1, std::sync::atomic::Ordering::Relaxed);
+                    // receive() produced nothing for this datagram. Dropping it silently is a way of
+                    // rejecting it — unless its bytes are kept and completed by whatever comes next:
+                    // send the first datagram again as a sentinel and see what comes out
+                    tx.send_to(l, addr).map_err(|e| format!("send: {}", e))?;
+                    let r3 = tokio::time::timeout(Duration::from_secs(5), &mut fut).await.map_err(|_| "timeout waiting for the sentinel datagram".to_string())?;
+                    match (r3, PDU::decode(&mut &l[..])) {
+                        (Ok(got), Ok(want)) if got == want => Err("dropped silently".to_string()),
+                        (Err(_), Err(_)) => Err("dropped silently".to_string()),
+                        (got, _) => return Ok((r1.map_err(|e| e.to_string()), Err(format!("HELD: the datagram was kept and the next datagram was received as {:?}", got.map_err(|e| e.to_string()))))),
+                    }
+                }
+            };
+            Ok::<_, String>((r1.map_err(|e| e.to_string()), r2))
         })
     });
     let (got1, got2) = match res {
@@ -215,7 +241,14 @@ fn eval(rt: &tokio::runtime::Runtime, tx: &std::net::UdpSocket, l: &[u8], v: &[u
         (Err(_), Err(_)) => true,
         _ => false,
     };
-    let fail = if !same(&got1, &want1) {
+    let held = matches!(&got2, Err(e) if e.starts_with("HELD:"));
+    let fail = if held {
+        Some(("own-bytes-only".to_string(), "truncated-datagram-completed-by-next".to_string(), format!("the {}-byte datagram {} ({} of {} bytes of a valid PDU) was not rejected: {}", t, hex(second), t, v.len(), show(&got2))))
+    } else if t < v.len() && got2.is_ok() {
+        // a datagram that lost its tail in flight announces more than it carries: it must be rejected
+        // (this clause does not rely on the decoder agreeing)
+        Some(("own-bytes-only".to_string(), "truncated-datagram-accepted".to_string(), format!("the {}-byte datagram {} ({} of {} bytes of a valid PDU) was accepted as {}", t, hex(second), t, v.len(), show(&got2))))
+    } else if !same(&got1, &want1) {
         Some(("first-datagram".to_string(), "fresh-transport-decodes-differently".to_string(), format!("datagram {} on a fresh transport: receive gave {}, decode of the bytes gives {}", hex(l), show(&got1), show(&want1))))
     } else if !same(&got2, &want2) {
         let class = match (&got2, &want2) {
